@@ -1,7 +1,7 @@
 (* Evaluation of the binary64 instance of the stream models on histories
    recorded from the implementation (bit-exact comparison). *)
 From Coq Require Import ZArith List Bool PrimFloat.
-From V Require Import Base.Num Model.StreamCore Model.Zliobaite Model.StreamCounters Harness.Run.
+From V Require Import Base.Num Model.StreamCore Model.Zliobaite Model.StreamCounters Model.Biqf Harness.Run.
 Import ListNotations.
 
 Definition feq (a b : float) : bool :=
@@ -91,3 +91,32 @@ Definition ck_of (n : nat) : ckind :=
 Definition check_c (c : c_case) : bool :=
   let '(k, b, draws, ops) := c in
   c_run (ck_of k) {| cp_b := b; cp_draws := draws |} {| c_obs := 0; c_q := 0; c_cur := 0 |} ops.
+
+(* ---- BalancedIncrementalQuantileFilter: state (observed, queried, history) ----
+   the quantile oracle of the model is a lookup table written by the harness. *)
+Inductive bop :=
+| BQuery (xs : list float) (res : list nat) (o q : Z) (h : list float)
+| BUpdate (xs : list float) (idx : list nat) (o q : Z) (h : list float).
+
+Definition bstate_eqb (s : @bstate float) (o q : Z) (h : list float) : bool :=
+  Z.eqb (b_obs s) o && Z.eqb (b_que s) q && list_eqb feq (b_hist s) h.
+
+Fixpoint b_run (quant : Z -> list float -> float) (p : @bparams float) (s : bstate) (ops : list bop) : bool :=
+  match ops with
+  | [] => true
+  | BQuery xs res o q h :: r =>
+      let '(idx, s') := b_query quant p s xs in
+      list_eqb Nat.eqb idx res && bstate_eqb s' o q h && b_run quant p s' r
+  | BUpdate xs idx o q h :: r =>
+      let s' := b_update p s xs idx in
+      bstate_eqb s' o q h && b_run quant p s' r
+  end.
+
+(* (budget, w, w_tol, quantile table, ops): the table maps every window the harness derived from the
+   canonical definition "last w utilities of committed history ++ chunk prefix" to np.quantile of it *)
+Definition b_case := (float * nat * float * list (list float * float) * list bop)%type.
+Definition check_biqf (c : b_case) : bool :=
+  let '(b, w, wtol, table, ops) := c in
+  let quant := fun (_ : Z) (h : list float) =>
+    match find (fun e => list_eqb feq (fst e) h) table with Some e => snd e | None => nan end in
+  b_run quant {| bq_b := b; bq_w := w; bq_wtol := wtol |} {| b_obs := 0; b_que := 0; b_hist := [] |} ops.
